@@ -76,3 +76,9 @@ Theorem C17_safe_site_exact :
     (forall ev, env_ok s ev = true -> log_client_ip ev = false -> has_addr (output default_level s ev) = false).
 Proof. exact safe_site_iff. Qed.
 Print Assumptions C17_safe_site_exact.
+
+(* the image of generalizeErr (either copy), for every error value: one of five address-free forms —
+   a sentinel, "short write", a bare errno, "<op>: <errno>", "unrecognized error (<type>)" *)
+Theorem C17_generalize_image : forall v e g, generalize v e = Some g -> sanitised_form g.
+Proof. exact generalize_image. Qed.
+Print Assumptions C17_generalize_image.
